@@ -2,6 +2,7 @@
 from __future__ import annotations
 
 import hashlib
+import random
 import itertools
 import json
 from fractions import Fraction
@@ -288,7 +289,7 @@ def field_input_system(rng, name='fld'):
 
 
 def persist_chain_system(rng, ncomp=None, name='ps', with_alpha=True, norms=False, serial=False, max_level=2, no_surrogate_prob=0.0,
-                         root_dir=None, costs=False):
+                         root_dir=None, costs=False, grid_opts=False):
     """like random_chain_system but with module-level models (models_lib.poly_model + model kwargs), so the system can be
     saved to file and loaded again.  Returns (system, spec)."""
     from amisc import Component, System, Variable
@@ -326,12 +327,18 @@ def persist_chain_system(rng, ncomp=None, name='ps', with_alpha=True, norms=Fals
         for o in s['outputs']:
             variables[o] = Variable(o, domain=(-50.0, 50.0), norm=(rng.choice([None, 'linear(0.5, 1)']) if norms else None))
     comps = []
+    grng = random.Random(rng.random()) if grid_opts else None
     for s in spec:
         kw = {}
         if s['has_surrogate']:
             kw['data_fidelity'] = tuple(s['levels'])
             if s['na']:
                 kw['model_fidelity'] = (1,) * s['na']
+            if grng is not None:         # non-default training-data settings, which a saved (also: not yet trained) component must keep
+                from amisc.training import SparseGrid
+                kpl = grng.choice([1, 2, 3])
+                s['knots_per_level'] = kpl
+                kw['training_data'] = SparseGrid(knots_per_level=kpl)
         comps.append(Component(models_lib.poly_model_serial if serial else models_lib.poly_model,
                                [variables[n] for n in s['inputs']], [variables[o] for o in s['outputs']], name=s['name'],
                                vectorized=not serial, in_names=list(s['inputs']), terms=s['raw_terms'], alpha_gain=s['alpha_gain'],
